@@ -328,4 +328,298 @@ theorem spec2_len (cfg : CheckCfg) (c : SCfg) (cs : List OTy) (m : Meta) (a : No
       simp only [SM.lift, hn, SM.pure', pure]
       exact ⟨n, rfl⟩
 
+/-- both operands evaluated, then a tail: the strict binary shape, with value types -/
+theorem strict_binary2 {P : Ctx → Prop} (c : SCfg) (l r : Node) (Vl Vr V : VTy)
+    (hl : EvalOKV E P c l Vl) (hr : EvalOKV E P c r Vr)
+    (tail : Val → Val → SM Val)
+    (htail : ∀ a b s, ValOfV a Vl → ValOfV b Vr →
+      match (tail a b s).1 with | .ok v => ValOfV v V | .error e => E e)
+    (ctx : Ctx) (hctx : P ctx) (s : SState) :
+    match (((eval c ctx l).bind' fun a => (eval c ctx r).bind' fun b => tail a b) s).1 with
+    | .ok v => ValOfV v V
+    | .error e => E e := by
+  have h1 := hl ctx hctx s
+  unfold SM.bind'
+  rcases hel : eval c ctx l s with ⟨ra, s1⟩
+  rw [hel] at h1
+  cases ra with
+  | error e => exact h1
+  | ok a =>
+    simp only [] at h1 ⊢
+    have h2 := hr ctx hctx s1
+    rcases her : eval c ctx r s1 with ⟨rb, s2⟩
+    rw [her] at h2
+    cases rb with
+    | error e => exact h2
+    | ok b => exact htail a b s2 h1 h2
+
+theorem vtyOf_slice_of {t : OTy} {k : RKind} (hk : sliceElemKind t = some k) : vtyOf t = some (.sl k) := by
+  unfold vtyOf
+  obtain ⟨ty, e, rfl, _, _, _, _, hkind⟩ := sliceElemKind_facts hk
+  simp [OTy.kind, hkind, RKind.isScalar, hk]
+
+/-- `x in xs` / `x not in xs` for a slice `xs` -/
+theorem spec2_in (cfg : CheckCfg) (c : SCfg) (cs : List OTy) (m : Meta) (op : String) (l r : Node)
+    (hop : op = "in" ∨ op = "not in")
+    (ihl : Spec2 E cfg c cs l) (ihr : Spec2 E cfg c cs r)
+    (hl : ∀ t, synth cfg cs l = some t → ∃ V, vtyOf t = some V)
+    (hr : ∀ t, synth cfg cs r = some t → ∃ k, sliceElemKind t = some k) :
+    Spec2 E cfg c cs (.binary m op l r) := by
+  intro τ V hs hV st hst
+  simp only [synth] at hs
+  cases hsl : synth cfg cs l with
+  | none => rw [hsl] at hs; cases hs
+  | some lt =>
+    cases hsr : synth cfg cs r with
+    | none => rw [hsl, hsr] at hs; cases hs
+    | some rt =>
+      rw [hsl, hsr] at hs
+      simp only [] at hs
+      have hrule := toOption'_some hs
+      obtain ⟨Vl, hVl⟩ := hl lt hsl
+      obtain ⟨k, hk⟩ := hr rt hsr
+      obtain ⟨e1, _, ev1⟩ := ihl lt Vl hsl hVl st hst
+      have hst1 := visit_colls cfg l st
+      rcases hlv : visit cfg l st with ⟨l', lt', st1⟩
+      rw [hlv] at e1 ev1 hst1
+      simp only [] at e1 ev1 hst1
+      subst e1
+      obtain ⟨e2, _, ev2⟩ := ihr rt (.sl k) hsr (vtyOf_slice_of hk) st1 (hst1.trans hst)
+      rcases hrv : visit cfg r st1 with ⟨r', rt', st2⟩
+      rw [hrv] at e2 ev2
+      simp only [] at e2 ev2
+      subst e2
+      have hτ : τ = boolTy := by
+        rcases hop with rfl | rfl <;> simp [binaryRule] at hrule <;> split at hrule <;>
+          first | (cases hrule; rfl) | cases hrule
+      subst hτ
+      have : V = .sc .bool := by
+        have : vtyOf boolTy = some (.sc .bool) := by decide
+        rw [this] at hV; cases hV; rfl
+      subst this
+      simp only [visit, hlv, hrv, hrule, orFail_ok]
+      refine ⟨trivial, setKd_kd _ _, ?_⟩
+      intro ctx hctx s
+      have tailok : ∀ (neg : Bool) a b s', ValOfV a Vl → ValOfV b (.sl k) →
+          match (((SM.lift (inV a b)).bind' fun r => pure (Val.bool (if neg then !r else r)) : SM Val) s').1 with
+          | .ok v => ValOfV v (.sc .bool) | .error e => E e := by
+        intro neg a b s' _ hb
+        obtain ⟨et, xs, rfl, _⟩ := hb
+        simp only [inV, SM.lift, SM.bind', SM.pure', pure]
+        exact ⟨_, rfl⟩
+      rcases hop with rfl | rfl
+      · show match (eval c ctx (.binary { m with kd := OTy.kind boolTy } "in" l' r') s).1 with
+          | .ok v => ValOfV v (.sc .bool) | .error e => E e
+        simp (config := {decide := true}) only [eval, bind, if_false, if_true]
+        refine strict_binary2 c l' r' Vl (.sl k) (.sc .bool) ev1 ev2 _ ?_ ctx hctx s
+        intro a b s' ha hb
+        have := tailok false a b s' ha hb
+        simpa using this
+      · show match (eval c ctx (.binary { m with kd := OTy.kind boolTy } "not in" l' r') s).1 with
+          | .ok v => ValOfV v (.sc .bool) | .error e => E e
+        simp (config := {decide := true}) only [eval, bind, if_false, if_true]
+        refine strict_binary2 c l' r' Vl (.sl k) (.sc .bool) ev1 ev2 _ ?_ ctx hctx s
+        intro a b s' ha hb
+        have := tailok true a b s' ha hb
+        simpa using this
+
+theorem allocBefore_cases (lim cnt : Int) (b : Nat) (s : SState) :
+    SM.allocBefore lim cnt b s = (.error .budget, s) ∨ ∃ s', SM.allocBefore lim cnt b s = (.ok (), s') := by
+  unfold SM.allocBefore
+  split
+  · exact Or.inl rfl
+  · exact Or.inr ⟨_, rfl⟩
+
+theorem allocAfter_cases (lim cnt : Int) (b : Nat) (s : SState) :
+    (∃ s', SM.allocAfter lim cnt b s = (.error .budget, s')) ∨ ∃ s', SM.allocAfter lim cnt b s = (.ok (), s') := by
+  unfold SM.allocAfter
+  simp only []
+  split
+  · exact Or.inl ⟨_, rfl⟩
+  · exact Or.inr ⟨_, rfl⟩
+
+theorem rangeElems_ints (lo hi : Int) : ∀ x ∈ rangeElems lo hi, ValOfK x (.num .int) := by
+  intro x hx
+  unfold rangeElems at hx
+  split at hx
+  · cases hx
+  · obtain ⟨i, _, rfl⟩ := List.mem_map.1 hx
+    exact ⟨_, rfl⟩
+
+/-- `a..b` -/
+theorem spec2_range (hb : E .budget) (cfg : CheckCfg) (c : SCfg) (cs : List OTy) (m : Meta) (l r : Node)
+    (ihl : Spec2 E cfg c cs l) (ihr : Spec2 E cfg c cs r)
+    (hl : ∀ t, synth cfg cs l = some t → ScalarT t) (hr : ∀ t, synth cfg cs r = some t → ScalarT t) :
+    Spec2 E cfg c cs (.binary m ".." l r) := by
+  intro τ V hs hV st hst
+  simp only [synth] at hs
+  cases hsl : synth cfg cs l with
+  | none => rw [hsl] at hs; cases hs
+  | some lt =>
+    cases hsr : synth cfg cs r with
+    | none => rw [hsl, hsr] at hs; cases hs
+    | some rt =>
+      rw [hsl, hsr] at hs
+      simp only [] at hs
+      have hrule := toOption'_some hs
+      have hls := hl lt hsl
+      have hrs := hr rt hsr
+      obtain ⟨e1, _, ev1⟩ := ihl lt (.sc lt.kind) hsl (vtyOf_scalar hls) st hst
+      have hst1 := visit_colls cfg l st
+      rcases hlv : visit cfg l st with ⟨l', lt', st1⟩
+      rw [hlv] at e1 ev1 hst1
+      simp only [] at e1 ev1 hst1
+      subst e1
+      obtain ⟨e2, _, ev2⟩ := ihr rt (.sc rt.kind) hsr (vtyOf_scalar hrs) st1 (hst1.trans hst)
+      rcases hrv : visit cfg r st1 with ⟨r', rt', st2⟩
+      rw [hrv] at e2 ev2
+      simp only [] at e2 ev2
+      subst e2
+      simp [binaryRule] at hrule
+      split at hrule
+      · rename_i hc
+        cases hrule
+        obtain ⟨ka, k1, _⟩ := (isIntegerT_scalar hls).1 hc.1
+        obtain ⟨kb, k2, _⟩ := (isIntegerT_scalar hrs).1 hc.2
+        have : V = .sl (.num .int) := by
+          have : vtyOf (some (Ty.slice (Ty.num Kind.int))) = some (.sl (.num .int)) := by decide
+          rw [this] at hV; cases hV; rfl
+        subst this
+        have hrule' : binaryRule cfg.dt ".." lt' rt' = .ok (some (Ty.slice (Ty.num Kind.int))) := by
+          simp [binaryRule, hc]
+        simp only [visit, hlv, hrv, hrule', orFail_ok]
+        refine ⟨trivial, setKd_kd _ _, ?_⟩
+        intro ctx hctx s
+        show match (eval c ctx (.binary { m with kd := OTy.kind (some (Ty.slice (Ty.num Kind.int))) } ".." l' r') s).1 with
+          | .ok v => ValOfV v (.sl (.num .int)) | .error e => E e
+        simp (config := {decide := true}) only [eval, bind, if_false, if_true]
+        refine strict_binary2 c l' r' (.sc lt'.kind) (.sc rt'.kind) (.sl (.num .int)) ev1 ev2 _ ?_ ctx hctx s
+        intro a b s' ha hb'
+        rw [k1] at ha; rw [k2] at hb'
+        obtain ⟨lo, hlo⟩ := toIntR_num ha
+        obtain ⟨hi', hhi⟩ := toIntR_num hb'
+        simp only [SM.lift, hlo, hhi, SM.bind', SM.pure', pure]
+        rcases allocBefore_cases c.budget
+            (if c.rangeSizeSigned = true then hi' - lo + 1 else if hi' - lo + 1 < 0 then 0 else hi' - lo + 1)
+            (rangeElems lo hi').length s' with he | ⟨s'', he⟩
+        · rw [he]; exact hb
+        · rw [he]; exact ⟨_, _, rfl, rangeElems_ints lo hi'⟩
+      · cases hrule
+
+/-! ### the loops of the collection builtins -/
+
+/-- outcome of one loop step: continue with an accumulator satisfying `Inv`, stop with a result
+satisfying `Res`, or fail with a tolerated failure -/
+def StepOK {α : Type} (E : ErrClass → Prop) (Inv : α → Prop) (Res : Val → Prop) (r : R (α ⊕ Val)) : Prop :=
+  match r with
+  | .ok (.inl a') => Inv a'
+  | .ok (.inr v) => Res v
+  | .error e => E e
+
+def ResOK (E : ErrClass → Prop) (Res : Val → Prop) (r : R Val) : Prop :=
+  match r with
+  | .ok v => Res v
+  | .error e => E e
+
+theorem loopIdx_spec {α : Type} (Inv : α → Prop) (Res : Val → Prop) (body : Nat → α → SM (α ⊕ Val))
+    (hbody : ∀ i acc s, Inv acc → StepOK E Inv Res (body i acc s).1) :
+    ∀ fuel i acc s, Inv acc → StepOK E Inv Res (loopIdx body fuel i acc s).1 := by
+  intro fuel
+  induction fuel with
+  | zero => intro i acc s h; exact h
+  | succ fuel ih =>
+    intro i acc s h
+    have hb := hbody i acc s h
+    simp only [loopIdx, bind]
+    unfold SM.bind'
+    rcases hr : body i acc s with ⟨r, s1⟩
+    rw [hr] at hb
+    cases r with
+    | error e => exact hb
+    | ok x =>
+      cases x with
+      | inl a' => exact ih (i + 1) a' s1 hb
+      | inr v => exact hb
+
+/-- a loop followed by a final step on the accumulator (an early result is returned as it is) -/
+def loopThen {α : Type} (body : Nat → α → SM (α ⊕ Val)) (fuel : Nat) (acc0 : α) (fin : α → SM Val) : SM Val :=
+  fun s =>
+    match loopIdx body fuel 0 acc0 s with
+    | (.ok r, s') =>
+      (match r with
+        | .inl a => fin a
+        | .inr v => pure v) s'
+    | (.error e, s') => (.error e, s')
+
+theorem loopThen_spec {α : Type} (Inv : α → Prop) (Res : Val → Prop) (body : Nat → α → SM (α ⊕ Val))
+    (hbody : ∀ i acc s, Inv acc → StepOK E Inv Res (body i acc s).1)
+    (fuel : Nat) (acc0 : α) (h0 : Inv acc0) (fin : α → SM Val)
+    (hfin : ∀ a s, Inv a → ResOK E Res (fin a s).1) (s : SState) :
+    ResOK E Res (loopThen body fuel acc0 fin s).1 := by
+  have hl := loopIdx_spec (E := E) Inv Res body hbody fuel 0 acc0 s h0
+  unfold loopThen
+  rcases hL : loopIdx body fuel 0 acc0 s with ⟨r, s'⟩
+  rw [hL] at hl
+  cases r with
+  | error e => exact hl
+  | ok x =>
+    cases x with
+    | inl a => exact hfin a s' hl
+    | inr v => exact hl
+
+/-- the step of a predicate loop -/
+def predStep (c : SCfg) (ctx : Ctx) (coll : Val) (b : Node) (onTrue onFalse : Unit ⊕ Val) :
+    Nat → Unit → SM (Unit ⊕ Val) :=
+  fun i _ => do
+    if ← asBool (← eval c ((coll, (i : Int)) :: ctx) b) then pure onTrue else pure onFalse
+
+def isBoolVal (v : Val) : Prop := ∃ x, v = .bool x
+
+theorem predStep_spec (c : SCfg) (ctx : Ctx) (coll : Val) (b : Node) (t f : Unit ⊕ Val)
+    (ht : ∀ v, t = .inr v → isBoolVal v) (hf : ∀ v, f = .inr v → isBoolVal v)
+    (hb : ∀ (i : Nat) s, ResOK E isBoolVal (eval c ((coll, (i : Int)) :: ctx) b s).1)
+    (i : Nat) (acc : Unit) (s : SState) (_ : True) :
+    StepOK E (fun _ : Unit => True) isBoolVal (predStep c ctx coll b t f i acc s).1 := by
+  have h := hb i s
+  simp only [predStep, bind]
+  unfold SM.bind'
+  rcases hev : eval c ((coll, (i : Int)) :: ctx) b s with ⟨r, s1⟩
+  rw [hev] at h
+  cases r with
+  | error e => exact h
+  | ok v =>
+    obtain ⟨x, rfl⟩ := h
+    cases x <;> simp only [asBool, SM.pure', pure]
+    · cases f with
+      | inl u => trivial
+      | inr v => exact hf v rfl
+    · cases t with
+      | inl u => trivial
+      | inr v => exact ht v rfl
+
+/-- the closure's body evaluated at element `i` of `coll` -/
+theorem body_at {cs : List OTy} {collT : OTy} {k : RKind} (c : SCfg) (b : Node) (Vb : VTy)
+    (hk : sliceElemKind collT = some k)
+    (hbody : EvalOKV E (CtxFor (collT :: cs)) c b Vb)
+    (coll : Val) (hcoll : ArrOf coll k) (i : Int) (ctx : Ctx) (s : SState) :
+    match (eval c ((coll, i) :: ctx) b s).1 with
+    | .ok v => ValOfV v Vb
+    | .error e => E e :=
+  hbody ((coll, i) :: ctx) ⟨k, hk, hcoll⟩ s
+
+theorem loopIdx_spec_eq {α : Type} (Inv : α → Prop) (Res : Val → Prop) (body : Nat → α → SM (α ⊕ Val))
+    (hbody : ∀ i acc s, Inv acc → StepOK E Inv Res (body i acc s).1)
+    (fuel i : Nat) (acc : α) (s : SState) (r : R (α ⊕ Val)) (s' : SState)
+    (h : loopIdx body fuel i acc s = (r, s')) (h0 : Inv acc) : StepOK E Inv Res r := by
+  have := loopIdx_spec (E := E) Inv Res body hbody fuel i acc s h0
+  rw [h] at this; exact this
+
+/-
+Not done here: the final assembly for the collection builtins (`all none any one count filter map`):
+the loop lemmas above (`loopIdx_spec`, `loopThen_spec`, `predStep_spec`, `body_at`) are what it needs; the
+remaining work is to bring `Spec.eval` on a builtin node into the `loopThen (predStep …)` form (an
+equation that holds by `rfl` after `simp only [eval]`, checked for `all`) and the induction over the
+extended fragment (`Spec2` for unary / binary / conditional through `spec2_to_frag` / `frag_to_spec2`).
+-/
+
 end ExprModel
